@@ -235,6 +235,14 @@ Converged(s, proj) ==
 
 Live(s) == s.started /\ ~s.ended /\ s.expect = "" /\ ~s.stalled
 
+(* Diagnosis only: convergence on the targets that were never removed or   *)
+(* reset in this scenario (if it holds while Converged fails, what went    *)
+(* wrong concerns a removed/reset target: C14).                             *)
+GoneTargets == {Trace[j].t : j \in {k \in 1..l : Trace[k].ev = "winv" /\ Trace[k].op \in {"Remove", "Reset"}}}
+ConvergedKept(s, proj) ==
+    LET g == GoneTargets IN
+    Converged([s EXCEPT !.view = {v \in @ : v.t \notin g}], {x \in proj : x.t \notin g})
+
 (* Between two quiescent points a settled subscriber receives, per leaf,    *)
 (* as many deliveries - counting the reported duplicates - as updates were *)
 (* offered to it: one delivery per notification, exact duplicate counts    *)
@@ -255,6 +263,8 @@ TQuiesce ==
     /\ LET proj == Proj(Ev)
            a == [conv |-> \A n \in DOMAIN sub :
                             (Live(sub[n]) /\ sub[n].mode = "stream") => (sub[n].syncs = 1 /\ Converged(sub[n], proj)),
+                 convkept |-> ~DiagOn \/ \A n \in DOMAIN sub :
+                            (Live(sub[n]) /\ sub[n].mode = "stream") => (sub[n].syncs = 1 /\ ConvergedKept(sub[n], proj)),
                  cons |-> \A n \in DOMAIN sub : (Live(sub[n]) /\ sub[n].settled) => Conserved(sub[n]),
                  late |-> \A n \in DOMAIN sub :
                             (\E j \in 1..Len(Ev.subs) : Ev.subs[j].s = n) => LateOf(Ev, n) = 0] IN
